@@ -66,6 +66,14 @@ ASSUMPTIONS = [
     "the positions stay where the previous trajectory left them; each trajectory is compared with the reference "
     "leapfrog of the CURRENT target and the first one after the change is also reversed; non-trivial only when the "
     "change moves the gradient at that position by > 1e-6",
+    "retune / operator_retune: between the trajectories of one integrator (operator) instance the step size and "
+    "number of steps are reassigned through the public routes - attribute assignment, LeapfrogIntegrator."
+    "load_state_dict, AdaptiveStepSize.learn / DualAveragingStepSize.learn, HMCOperator.tune (with and without "
+    "adaptors), set_adaptable_parameter, find_reasonable_step_size in the constructor - and the mass matrix is "
+    "reassigned (Parameter.tensor); the reference uses the values read back from the public attributes "
+    "(step_size, steps, mass matrix parameter) at the moment of the trajectory, whatever value the adaptor chose "
+    "(how adaptors choose it is not C16's subject); find_reasonable_step_size is used on Normal / MVN targets only "
+    "and a raise inside it is counted, not asserted; HMCOperator.load_state_dict belongs to C17",
     "mixed_*: float64 positions with a float32 mass matrix (JSON Parameter with dtype torch.float32, diagonal entries "
     "powers of two so that the inverse is exact), a step size that is a float32 number (the library forms step_size * "
     "inverse_mass_matrix in float32) and float32 momentum (exactly representable): the integrator "
@@ -144,7 +152,7 @@ def _block(draw, kind, n):
 
 
 @st.composite
-def cases(draw, targets=("block", "block", "mvn", "phylo"), max_L=30, phylo_max_L=30, eps_lo=1e-3, masses=("identity", "identity_dense", "diag", "diag", "dense", "dense"), operator=False, harsh=False, raw=False, update=False, mixed=False):
+def cases(draw, targets=("block", "block", "mvn", "phylo"), max_L=30, phylo_max_L=30, eps_lo=1e-3, masses=("identity", "identity_dense", "diag", "diag", "dense", "dense"), operator=False, harsh=False, raw=False, update=False, mixed=False, retune=False):
     target = draw(st.sampled_from(list(targets)))
     c = {"target": target}
     # the knobs first, the bulk of the numbers afterwards (late draws of a long example are the
@@ -154,8 +162,25 @@ def cases(draw, targets=("block", "block", "mvn", "phylo"), max_L=30, phylo_max_
     mass_kind = draw(st.sampled_from(list(masses)))
     if update:
         c["update_at"] = draw(st.sampled_from([0, 1]))  # after which trajectory the other parameters change
+    if retune:
+        # what is reassigned between the trajectories of one integrator / operator instance, and by which route
+        kinds = ["assign_eps", "assign_steps", "assign_both", "load_state", "adaptor", "mass"]
+        if operator:
+            kinds += ["tune", "tune", "set_adaptable"]
+            c["adaptor"] = draw(st.sampled_from(["none", "adaptive", "dual", "none"]))
+            c["find_reasonable"] = draw(st.sampled_from([False, False, True]))
+            c["decisions"] = draw(st.sampled_from([["accept", "accept"], ["accept", "reject"], ["reject", "accept"], ["reject", "reject"]]))
+        else:
+            c["adaptor"] = draw(st.sampled_from(["adaptive", "dual"]))
+        ev = []
+        for _ in range(2):
+            k = draw(st.sampled_from(kinds))
+            e = {"kind": k, "eps": draw(_logu_grid(1e-3, 0.5)), "L": draw(st.sampled_from(_spread(range(1, max_L + 1)))), "prob": draw(st.sampled_from(_spread([i / 16.0 for i in range(17)])))}
+            ev.append(e)
+        c["events"] = ev
     if operator:
-        c["decisions"] = draw(st.sampled_from([["accept"], ["reject"], ["accept", "reject"], ["reject", "accept"], ["accept", "accept"], ["reject", "reject"]]))
+        if not retune:
+            c["decisions"] = draw(st.sampled_from([["accept"], ["reject"], ["accept", "reject"], ["reject", "accept"], ["accept", "accept"], ["reject", "reject"]]))
         c["mass_route"] = draw(st.sampled_from(["spec", "assigned"]))
         c["torch_seed"] = draw(st.integers(0, 2**31 - 1))
     if target == "phylo":
@@ -188,6 +213,8 @@ def cases(draw, targets=("block", "block", "mvn", "phylo"), max_L=30, phylo_max_
                     # gamma densities on untransformed positive parameters: a trajectory that steps out of
                     # the support makes the density raise, the operator retries with a new momentum
                     kind = draw(st.sampled_from(["gamma_raw", "gamma_raw", "normal"])) if len(blocks) else "gamma_raw"
+                elif c.get("find_reasonable"):
+                    kind = draw(st.sampled_from(["normal", "mvn"]))
                 else:
                     kind = draw(st.sampled_from(["normal", "gamma", "gamma", "mvn", "gamma_raw"]))
                 blocks.append(_block(draw, kind, n))
@@ -201,6 +228,10 @@ def cases(draw, targets=("block", "block", "mvn", "phylo"), max_L=30, phylo_max_
     c["eps"] = eps
     c["L"] = L
     c["mass"] = _mass(draw, d, mass_kind)
+    if retune:
+        for e in c["events"]:
+            if e["kind"] == "mass":
+                e["M"] = _mass(draw, d, mass_kind if mass_kind in ("diag", "dense") else ("diag" if mass_kind == "identity" else "dense"))["M"]
     if mixed:
         # float64 positions with a single-precision mass matrix (what {"ones": n} without dtype gives under a
         # float32 default dtype) and hence single-precision momentum. All single-precision inputs are exactly
@@ -625,6 +656,102 @@ def body_sequence(c):
     return res
 
 
+# ----------------------------------------------------------------------------- re-tuning between trajectories
+def adaptor_spec(kind):
+    if kind == "adaptive":
+        return {"id": "ssa", "type": "AdaptiveStepSize", "integrator": "lf", "target_acceptance_probability": 0.8}
+    return {"id": "ssa", "type": "DualAveragingStepSize", "integrator": "lf"}
+
+
+def apply_event(e, integ, adaptor, leg, accepted=True):
+    """change the integrator through one of its public routes; returns the label of the route"""
+    k = e["kind"]
+    if k == "assign_eps":
+        integ.step_size = float(e["eps"])
+    elif k == "assign_steps":
+        integ.steps = int(e["L"])
+    elif k == "assign_both":
+        integ.step_size = float(e["eps"])
+        integ.steps = int(e["L"])
+    elif k == "load_state":
+        sd = dict(integ.state_dict())
+        sd["step_size"] = float(e["eps"])
+        sd["steps"] = int(e["L"])
+        integ.load_state_dict(sd)
+    elif k == "adaptor" and adaptor is not None:
+        adaptor.learn(torch.tensor(float(e["prob"])), leg + 1, accepted)
+        return "adaptor:" + type(adaptor).__name__
+    return k
+
+
+def body_retune(c):
+    """ONE integrator instance, three trajectories; between them the step size / number of steps are reassigned
+    through the public routes (attribute assignment, load_state_dict, a step-size adaptor's learn()) or another
+    inverse mass matrix is passed. Each trajectory must be the leapfrog trajectory for the values in force when it
+    is run (read back from the public attributes), and reversible."""
+    res = _base(c, "retune")
+    orc = Oracle(c)
+    M = mass_np(c)
+    q0 = np.asarray(c["q0"], dtype=float)
+    moms = [np.asarray(c["p0"], dtype=float), -np.asarray(c["p0"], dtype=float)[::-1].copy(), 0.5 * np.asarray(c["p0"], dtype=float)]
+    b = Built(c)
+    integ = build_integrator(c["eps"], c["L"], b.dic, "lf")
+    adaptor, _ = tt.build(adaptor_spec(c["adaptor"]), b.dic)
+    b.set_q(q0)
+    q_cur = q0
+    routes = []
+    for leg in range(3):
+        if leg > 0:
+            e = c["events"][leg - 1]
+            routes.append(apply_event(e, integ, adaptor, leg))
+            if e["kind"] == "mass":
+                M = np.asarray(e["M"], dtype=float)
+        eps, L = float(integ.step_size), int(integ.steps)
+        if leg > 0 and e["kind"] in ("assign_eps", "assign_both", "load_state") and eps != float(e["eps"]):
+            return res.fail("attribute", {"step_size": eps, "assigned": e["eps"]})
+        if not (1e-6 <= eps <= 10.0 and 1 <= L <= 200):
+            _lab(res, "guard:unstable")
+            return res
+        minv = lf.invert_mass(M)
+        minv_t = tt.T(minv.tolist())
+        p = moms[leg]
+        ref, amp, why = _reference(c, orc, q_cur, p, eps, L, minv)
+        if why:
+            _lab(res, why)
+            return res
+        back, amp2, why = _reference(c, orc, ref["q"], -ref["p"], eps, L, minv)
+        if why:
+            _lab(res, why)
+            return res
+        S = max(ref["scale"], back["scale"])
+        p1 = arr(integ(b.joint, b.params, torch.tensor(p.tolist()), minv_t))
+        q1 = b.get_q()
+        if q1 is None:
+            return res.fail("shape", {"sizes": c["sizes"], "leg": leg})
+        tag = routes[-1] if routes else "fresh"
+        err = max(maxabs(q1, ref["q"]), maxabs(p1, ref["p"]))
+        if not err <= 1e-10 * S:
+            res.fail("mismatch", {"leg": leg, "route": tag, "err": err, "scale": S, "step_size": eps, "steps": L, "q": q1.tolist(), "q_ref": ref["q"].tolist(), "p": p1.tolist(), "p_ref": ref["p"].tolist()})
+        p2 = arr(integ(b.joint, b.params, torch.tensor((-p1).tolist()), minv_t))
+        q2 = b.get_q()
+        if q2 is None:
+            return res.fail("shape", {"sizes": c["sizes"], "leg": leg})
+        err = max(maxabs(q2, q_cur), maxabs(p2, -p))
+        if not err <= 1e-9 * L * S:
+            res.fail("irreversible", {"leg": leg, "route": tag, "err": err, "scale": S, "step_size": eps, "steps": L})
+        if res.fails:
+            return res
+        # go forward once more so that the chain moves on (the return trip ended where the leg started)
+        integ(b.joint, b.params, torch.tensor(p.tolist()), minv_t)
+        q_cur = b.get_q()
+        if q_cur is None:
+            return res.fail("shape", {"sizes": c["sizes"], "leg": leg})
+    res.nontrivial = float(np.max(np.abs(q_cur - q0))) > 1e-6
+    for r in routes:
+        _lab(res, "route=" + r)
+    return res
+
+
 # ----------------------------------------------------------------------------- (c)
 class _FDAbort(Exception):
     pass
@@ -838,7 +965,7 @@ def body_operator(c):
     eps, L = c["eps"], c["L"]
     d = sum(c["sizes"])
     b = Built(c)
-    build_integrator(eps, L, b.dic, "lf")
+    integ = build_integrator(eps, L, b.dic, "lf")
     route = c.get("mass_route", "spec")
     mixed = is_mixed(c)
     if mixed and M.ndim == 2:
@@ -854,16 +981,43 @@ def body_operator(c):
     if mixed:
         mass["dtype"] = "torch.float32"
         _lab(res, "precision=mass32")
-    op, _ = tt.build(
-        {"id": "op", "type": "HMCOperator", "joint": "joint", "parameters": list(b.ids) if len(b.ids) > 1 else b.ids[0], "integrator": "lf", "mass_matrix": mass, "weight": 1.0},
-        b.dic,
-    )
+    spec = {"id": "op", "type": "HMCOperator", "joint": "joint", "parameters": list(b.ids) if len(b.ids) > 1 else b.ids[0], "integrator": "lf", "mass_matrix": mass, "weight": 1.0}
+    adaptor = None
+    if c.get("adaptor", "none") != "none":
+        spec["adaptors"] = [adaptor_spec(c["adaptor"])]
+    if c.get("find_reasonable"):
+        spec["find_reasonable_step_size"] = True  # runs in the constructor with momenta of its own
+    torch.manual_seed(c["torch_seed"])
+    op, exc = guarded(tt.build, spec, b.dic)
+    if exc is not None:
+        if c.get("find_reasonable"):
+            # the search doubles the step size until the acceptance collapses; on the way the target may
+            # become non-finite: outside what the property speaks about
+            _lab(res, "find_reasonable_raised:" + type(exc).__name__)
+            return res
+        raise exc
+    op = op[0]
+    if "ssa" in b.dic:
+        adaptor = b.dic["ssa"]
     if route != "spec":
         b.dic["op.mass"].tensor = tt.T(M.tolist(), dtype=torch.float32 if mixed else None)
     _lab(res, "mass_route=" + route)
-    torch.manual_seed(c["torch_seed"])
     q_cur = np.asarray(c["q0"], dtype=float)
+    if c.get("find_reasonable"):
+        # the search leaves the parameters where its last trial trajectory ended, and the step size it found
+        q_cur = b.get_q()
+        if q_cur is None or not np.all(np.isfinite(q_cur)):
+            _lab(res, "guard:unstable")
+            return res
+        eps = float(integ.step_size)
+        _lab(res, "route=find_reasonable_step_size")
+        if not 1e-6 <= eps <= 10.0:
+            _lab(res, "guard:unstable")
+            return res
     lp_cur = orc.logp(q_cur)
+    if not math.isfinite(lp_cur):
+        _lab(res, "guard:unstable")
+        return res
     nsteps = 0
     cur = c
     for idx, decision in enumerate(list(c["decisions"]) + ["end"]):
@@ -950,6 +1104,30 @@ def body_operator(c):
             qb = b.get_q()
             if qb is None or not np.array_equal(qb, q_cur):
                 return res.fail("restore", {"q": None if qb is None else qb.tolist(), "expected": q_cur.tolist()})
+        if "events" in c and decision != "end":
+            # what MCMC.run does after accept/reject (operator.tune), or another public route
+            e = c["events"][idx]
+            k = e["kind"]
+            if k == "tune":
+                op.tune(torch.tensor(float(e["prob"])), idx + 1, decision == "accept")
+                tag = "tune:" + c.get("adaptor", "none")
+            elif k == "set_adaptable":
+                op.set_adaptable_parameter(math.log(float(e["eps"])))
+                tag = k
+            elif k == "mass":
+                b.dic["op.mass"].tensor = tt.T(e["M"])
+                tag = k
+            else:
+                tag = apply_event(e, integ, adaptor, idx, decision == "accept")
+            eps, L = float(integ.step_size), int(integ.steps)
+            M = arr(b.dic["op.mass"].tensor)
+            minv = lf.invert_mass(M)
+            if k in ("assign_eps", "assign_both", "load_state", "set_adaptable") and not abs(eps - float(e["eps"])) <= 1e-12 * eps:
+                return res.fail("attribute", {"step_size": eps, "assigned": e["eps"], "route": tag})
+            _lab(res, "route=" + tag)
+            if not (1e-6 <= eps <= 10.0 and 1 <= L <= 200):
+                _lab(res, "guard:unstable")
+                return res
         if c.get("update_at") == idx and decision != "end":
             # another operator of the chain changes the other parameters of the target; positions untouched
             cur = updated(c)
@@ -1093,6 +1271,9 @@ def subchecks(tier):
         Sub("operator_gibbs", body_operator, strategy=lambda: cases(targets=toy, operator=True, update=True), quick=160, thorough=6000, pretags=pretags),
         Sub("sequence", body_sequence, strategy=lambda: cases(targets=toy, update=True), quick=200, thorough=8000, pretags=pretags),
         Sub("sequence_phylo", body_sequence, strategy=lambda: cases(targets=ph, phylo_max_L=12, update=True), quick=16, thorough=400, pretags=pretags),
+        Sub("retune", body_retune, strategy=lambda: cases(targets=toy, retune=True, max_L=16 if q else 30), quick=200, thorough=8000, pretags=pretags),
+        Sub("retune_phylo", body_retune, strategy=lambda: cases(targets=ph, retune=True, max_L=8, phylo_max_L=8), quick=12, thorough=300, pretags=pretags),
+        Sub("operator_retune", body_operator, strategy=lambda: cases(targets=toy, operator=True, retune=True, max_L=16 if q else 30), quick=240, thorough=8000, pretags=pretags),
         Sub("mixed_differential", body_differential, strategy=lambda: cases(targets=toy, mixed=True, masses=("diag", "diag", "diag", "identity", "dense")), quick=120, thorough=5000, pretags=pretags),
         Sub("mixed_reversal", body_reversal, strategy=lambda: cases(targets=toy, mixed=True, masses=("diag", "diag", "identity")), quick=120, thorough=5000, pretags=pretags),
         Sub("mixed_energy", body_energy, strategy=lambda: cases(targets=toy, mixed=True, masses=("diag", "diag", "identity"), max_L=16 if q else 30), quick=100, thorough=4000, pretags=pretags),
